@@ -60,6 +60,7 @@ _N = 0
 
 class C16(Prop):
     id = "C16"
+    noise_sample = 300
     gen_module = "FsScriptGen"
     judge_module = "FsScriptJudge"
     assumptions = [
